@@ -104,7 +104,7 @@ def run(pid, path, quiet=False):
             print('observed:', outs, inits)
             print('model   :', line)
             _, body, m_inits = line.split('\t')
-            nq = sum(1 for o in case['ops'] if o[0] == 'q')
+            nq = sum(1 for o in case['ops'] if o[0] in ('q', 'infself'))
             model = (body.split('|') + [''] * nq)[:nq] if nq else []
             if outs != model or str(inits) != m_inits:
                 report.violations.append(('registry history still differs', payload))
